@@ -618,6 +618,14 @@ func decodeApk(p *Pkg, b []byte, tools map[string]string) error {
 		if sh.TrailingZero > 0 {
 			p.prob("apk-segment-end-marker", "signature segment carries %d end-of-archive blocks", sh.TrailingZero)
 		}
+		// apk-tools looks at the first header block of the stream: it must itself be the signature file's header,
+		// not an extension header (PAX 'x'/'g', GNU 'L') placed in front of it
+		if raw := gz[0].Data; len(raw) >= 512 {
+			name := strings.TrimRight(string(raw[:100]), "\x00")
+			if tf := raw[156]; (tf != '0' && tf != 0) || !strings.HasPrefix(name, ".SIGN.RSA.") {
+				p.prob("apk-signature-first-block", "the first header block of the package is %q with type flag %q, not the .SIGN.RSA.* file", name, string(tf))
+			}
+		}
 		if len(ses) != 1 || !strings.HasPrefix(ses[0].Name, ".SIGN.RSA.") {
 			p.prob("apk-signature-segment", "signature segment members: %d, first %q", len(ses), firstName(ses))
 		} else {
@@ -641,6 +649,11 @@ func decodeApk(p *Pkg, b []byte, tools map[string]string) error {
 		p.prob("apk-segment-alignment", "control segment is %d bytes, not a multiple of 512", len(ctl.Data))
 	}
 	p.ControlTar = ces
+	if raw := ctl.Data; len(raw) >= 512 {
+		if name, tf := strings.TrimRight(string(raw[:100]), "\x00"), raw[156]; (tf != '0' && tf != 0) || name != ".PKGINFO" {
+			p.prob("apk-pkginfo-first", "the first header block of the control segment is %q with type flag %q, not .PKGINFO", name, string(tf))
+		}
+	}
 	if len(ces) == 0 || ces[0].Name != ".PKGINFO" {
 		p.prob("apk-pkginfo-first", "first control member is %q", firstName(ces))
 	}
